@@ -1,6 +1,6 @@
 import CardVerif.Proofs.Progress
 import CardVerif.Proofs.ListLemmas
-import CardVerif.Spec.Strength
+import CardModel.Spec.Strength
 import Mathlib.Data.List.Nodup
 import Mathlib.Data.List.Perm.Basic
 /-!
